@@ -481,8 +481,10 @@ class Machine:
         if self._reg.unit_mode is UnitMode.RAW:
             return srce
         xform_fn = units.convert_fn(self._reg.unit_mode, UnitMode.RAW)
+        # Convert the cells as they are; rounding and clamping apply to the raw
+        # values, not to degrees or percentages.
         return ColorMatrix.new_from_iterable(srce.height, srce.width,
-            (xform_fn(color) for color in srce.get_colors()))
+            (xform_fn(color) for color in srce.as_list()))
 
     def _assure_units(self, color):
         """
